@@ -140,6 +140,14 @@ def build_driver(name, extract_v, driver_ml, modname):
     src_v = os.path.join(COQ, extract_v)
     src_ml = os.path.join(ROOT, 'driver', driver_ml)
     stamp = os.path.join(d, 'stamp')
+    # the libraries the extraction file loads must be current (a regenerated or edited .v file makes its dependants stale)
+    rc, dep = sh(['coqdep', '-Q', '.', 'KDB', extract_v], cwd=COQ)
+    need = sorted({os.path.basename(t) for t in re.findall(r'(\S+\.vo)\b', dep.split(':', 1)[1] if ':' in dep else '')
+                   if os.path.basename(t) != extract_v[:-2] + '.vo'})
+    if need:
+        okm, mlog = coq_make(need)
+        if not okm:
+            return False, mlog, exe
     deps = [src_v, src_ml] + [os.path.join(COQ, f) for f in os.listdir(COQ) if f.endswith('.vo')]
     newest = max(os.path.getmtime(p) for p in deps)
     if os.path.exists(exe) and os.path.exists(stamp) and os.path.getmtime(stamp) >= newest:
